@@ -340,17 +340,34 @@ impl Ast {
     where
         OwnedPtr<T>: Into<Node>,
     {
-        // Add an entry to this AST's lookup table for the element. The primitive types keep their entries no matter what:
-        // an element can only be named like one of them in a file that has no module declaration (which is an error, but
-        // one that's only reported after the file has been parsed), and the parser looks the primitives up by name.
         let scoped_identifier = element.borrow().parser_scoped_identifier();
-        let is_primitive = |index: &usize| matches!(self.elements[*index], Node::Primitive(_));
-        if !self.lookup_table.get(&scoped_identifier).is_some_and(is_primitive) {
+        let weak_ptr = element.downgrade();
+        let node: Node = element.into();
+
+        // Add an entry to this AST's lookup table for the element, unless the name is held by an element that takes
+        // precedence over it. Which of two elements is found under a name they share must not depend on the order the
+        // files were parsed in, and the redefinition check only compares elements of the same kind.
+        let takes_precedence = |index: &usize| lookup_precedence(&self.elements[*index]) > lookup_precedence(&node);
+        if !self.lookup_table.get(&scoped_identifier).is_some_and(takes_precedence) {
             self.lookup_table.insert(scoped_identifier, self.elements.len());
         }
 
         // Add the element to this AST.
-        self.add_element(element)
+        self.elements.push(node);
+        weak_ptr
+    }
+}
+
+/// Returns the precedence of a node in the [lookup table](Ast::lookup_table): an entry is never replaced by one of lower
+/// precedence. The primitive types keep their entries no matter what: an element can only be named like one of them in
+/// a file that has no module declaration (which is an error, but one that's only reported after the file has been
+/// parsed), and the parser looks the primitives up by name. A definition takes precedence over a member (a field of
+/// `struct S` in module `A` and a definition in module `A::S` can have the same scoped identifier).
+fn lookup_precedence(node: &Node) -> u8 {
+    match node {
+        Node::Primitive(_) => 2,
+        Node::Struct(_) | Node::Interface(_) | Node::Enum(_) | Node::CustomType(_) | Node::TypeAlias(_) => 1,
+        _ => 0,
     }
 }
 
